@@ -19,12 +19,15 @@ import (
 
 type opEnv struct {
 	Reader func(b []byte) io.Reader // wraps an input (C09 injects scheduling points here)
-	Writer func(w io.Writer) io.Writer
+	// RawReader is used by calls that read the stream without decoding records (no accumulator bookkeeping).
+	RawReader func(b []byte) io.Reader
+	Writer    func(w io.Writer) io.Writer
 }
 
 var plainEnv = opEnv{
-	Reader: func(b []byte) io.Reader { return bytes.NewReader(b) },
-	Writer: func(w io.Writer) io.Writer { return w },
+	Reader:    func(b []byte) io.Reader { return bytes.NewReader(b) },
+	RawReader: func(b []byte) io.Reader { return bytes.NewReader(b) },
+	Writer:    func(w io.Writer) io.Writer { return w },
 }
 
 type opResult struct {
@@ -185,7 +188,7 @@ func opPool() []poolOp {
 			return opResult{Text: fmt.Sprintf("err=%v panic=%s files=%d %s", res.Err, res.Panic, len(res.Files), sb.String()), Dist: d, Lossy: append(append([]uint32{}, poolLossyB...), poolLossyA...)}
 		}},
 		{Name: "CheckIntegrity(actA)", Run: func(env opEnv) opResult {
-			res := safeCheckIntegrity(env.Reader(poolActA), false)
+			res := safeCheckIntegrity(env.RawReader(poolActA), false)
 			return opResult{Text: fmt.Sprintf("err=%v panic=%s", res.Err, res.Panic)}
 		}},
 		encodeOp("Encode(api file 0, LE)", func() *fit.File { return apiFile(0) }, false),
@@ -196,7 +199,7 @@ func opPool() []poolOp {
 			return f
 		}, false),
 		{Name: "DecodeHeaderAndFileID(settings)", Run: func(env opEnv) opResult {
-			res := safeDecodeHeaderAndFileID(env.Reader(sSet.B))
+			res := safeDecodeHeaderAndFileID(env.RawReader(sSet.B))
 			return opResult{Text: fmt.Sprintf("err=%v panic=%s %s %s", res.Err, res.Panic, fitmodel.DumpI(res.Header), fitmodel.DumpI(res.FileId))}
 		}},
 		decodeOp("Decode(monitoring, compressed timestamps first)", monitoringCompressedFirst(), nil, nil),
